@@ -282,6 +282,20 @@ def _matrix12(rng):
     return [v for i in range(3) for v in A[i] + [t[i]]]
 
 
+# … and of a matrix written with whole-number literals (np.array([[0, -1, 0, 0], [1, 0, 0, 0], …]) is an INTEGER array): axis
+# permutations, mirrors, quarter turns, whole-number factors / offsets.  The dtype is a spelling, the stated map is the same.
+INT_MDTYPES = ["int64", "int32", "int16"]
+PERMS3 = [[0, 1, 2], [1, 0, 2], [0, 2, 1], [2, 1, 0], [1, 2, 0], [2, 0, 1]]
+
+
+def _matrix12_int(rng):
+    """a signed axis permutation (mirror / quarter turn / axis swap) with whole-number factors and a whole-number translation, as 12 numbers"""
+    perm = rng.choice(PERMS3)
+    d = [rng.choice([1, -1, 1, -1, 2, -2, 3]) for _ in range(3)]
+    t = [rng.choice([0, rng.randint(-40, 40)]) for _ in range(3)]
+    return [float(v) for i in range(3) for v in [d[i] if perm[i] == j else 0 for j in range(3)] + [t[i]]]
+
+
 def _inverse(kind, a, center="origin"):
     """(kind, parameters) of the inverse transform about the same kind of centre, None when the stated map has none (or none of the same
     kind).  A root-centred affine map p -> A(p-c)+t+c moves the root to c+t; its inverse about THAT root is q -> A^-1(q-c')-t+c'."""
@@ -375,8 +389,11 @@ def _transform(kind, a, center, num="float", mdtype="float64"):
     if kind == "affine_m":
         from swcgeom.transforms import AffineTransform
 
+        A = np.array(a, dtype=np.float64).reshape(3, 4)
+        if mdtype.startswith("int") and not np.array_equal(A, np.round(A)):
+            mdtype = "float64"          # only whole numbers can be written as an integer array
         M = np.eye(4, dtype=mdtype)
-        M[:3] = np.array(a, dtype=np.float64).reshape(3, 4)
+        M[:3] = A
         return AffineTransform(M, **kw)
     if kind == "translate_origin":
         return TranslateOrigin()
@@ -483,6 +500,16 @@ class Affine(Suite):
                         c["mdtype"] = rng.choice(MDTYPES)
                     out.append(c)
                 kp += 1
+        # "all matrices": a matrix written with whole-number literals is an integer array (see _matrix12_int) — every integer dtype
+        # and, for comparison, float64, x every spelling of the centre, in every run
+        ki = 0
+        for rep in range(4 if big else 2):
+            for md in INT_MDTYPES + ["float64"]:
+                for center in CENTRES:
+                    n = [3, 5, 2, 9, 20][ki % 5] if not big else rng.choice([1, 2, 3, 5, 9, 20, 60])
+                    t = gen.tree_case(rng, n, gen.pick_shape(rng, ki), numbering=rng.choice(["sorted", "root0"]), coords="dyadic"); ki += 1
+                    out.append({"class": f"affine_m-{md}/{center}/whole-number-matrix", "tree": t, "kind": "affine_m", "a": _matrix12_int(rng),
+                                "center": center, "mdtype": md, "warm": rng.random() < 0.3, "num": "float"})
         # "all trees": every row order (see _reorder) x every construction route x every kind; the centre modes cycle so that every kind
         # meets every row order about the root (spelled root / soma / left out) and about the origin in every run
         kr = 0
@@ -517,6 +544,7 @@ class Affine(Suite):
         if kind == "translate":
             inv = _transform(kind, [-v for v in a], case["center"], num)
         elif _inverse(kind, a, self._center(case)) is not None:                   # a scaling with a zero factor has no inverse
+            # (the inverse of a whole-number matrix is written as an integer array when it is one, see _transform)
             inv = _transform(kind, _inverse(kind, a, self._center(case))[1], case["center"], "float", md)
         if kind == "rot":
             _transform(kind, [a[1], a[2], a[0], a[3] * 0.5 + 0.3], case["center"])      # … and an unrelated rotation after it
@@ -623,7 +651,7 @@ class Affine(Suite):
 
 
 # ---- pipelines: a transform is applied to "all trees", in particular to the OUTPUT of another transform ---------------------------
-STEP_KINDS = ["translate", "scale", "rotx", "roty", "rotz", "rot", "affine_m/float64", "affine_m/float32", "translate_origin"]
+STEP_KINDS = ["translate", "scale", "rotx", "roty", "rotz", "rot", "affine_m/float64", "affine_m/float32", "affine_m/int", "translate_origin"]
 STEP_COMBOS = [(k, c) for k in STEP_KINDS for c in (["origin", "root"] if k != "translate_origin" else ["default"])]
 
 
@@ -643,10 +671,10 @@ def _step(rng, combo, default_ok=True):
     a = {"translate": lambda: [rng.randint(-40, 40) / 4 for _ in range(3)],
          "scale": lambda: [rng.choice([0.5, 2.0, 1.0, 3.0, 0.25, -1.0, rng.randint(1, 40) / 8]) for _ in range(3)],
          "rotx": lambda: [th], "roty": lambda: [th], "rotz": lambda: [th], "rot": lambda: _unit_axis(rng) + [th],
-         "affine_m": lambda: _matrix12(rng), "translate_origin": lambda: []}[kind]()
+         "affine_m": lambda: _matrix12_int(rng) if md == "int" else _matrix12(rng), "translate_origin": lambda: []}[kind]()
     st = {"kind": kind, "a": a, "center": center}
     if md:
-        st["mdtype"] = md
+        st["mdtype"] = rng.choice(INT_MDTYPES) if md == "int" else md
     return st
 
 
@@ -804,6 +832,119 @@ class Pipeline(Suite):
         return case["tree"]["n"] >= 2 and any(abs(v) > 0 for v in case["tree"]["xyz"][_root_row(case["tree"])])
 
 
+# ---- reuse: ONE transform object applied several times; every tree it returned keeps the coordinates of the stated map ------------------
+REUSE_MODES = ["other-trees", "same-tree", "chain", "sizes"]
+
+
+class Reuse(Suite):
+    """a transform object is a value that is applied to many trees (`Transforms(...)`, population maps, augmentation loops, t(t(x))).
+    Every returned tree must carry the stated map of the tree it was made from — also when it is read AFTER the object has been used
+    again — and the inverse of an earlier result restores that result's input.
+    modes: `other-trees` = k different trees with the same number of nodes, `same-tree` = the same tree k times, `chain` = the object
+    applied to its own output k times (four quarter turns), `sizes` = trees with different numbers of nodes"""
+    name = "c12.reuse"
+
+    def cases(self, rng, tier, widen):
+        out = []
+        big = tier == "thorough" or widen
+        k = 0
+        for rep in range(3 if big else 1):
+            for combo in STEP_COMBOS:
+                for mode in REUSE_MODES:
+                    n = [2, 3, 5, 9, 20][k % 5] if not big else rng.choice([1, 2, 3, 5, 9, 20, 60])
+                    calls = 2 + k % 3; k += 1
+                    ns = [n] * calls if mode != "sizes" else [n + i for i in range(calls)]
+                    m = 1 if mode in ("same-tree", "chain") else calls
+                    trees = [gen.tree_case(rng, ns[i], gen.pick_shape(rng, k + i), numbering=rng.choice(["sorted", "root0"]), coords="dyadic")
+                             for i in range(m)]
+                    st = _step(rng, combo)
+                    out.append({"class": f"reuse-{mode}/{st['kind']}/{_step_center(st)}", "mode": mode, "calls": calls, "trees": trees, "step": st})
+        return out
+
+    def run(self, case):
+        st, mode = case["step"], case["mode"]
+        tr = _transform(st["kind"], st["a"], st["center"], "float", st.get("mdtype", "float64"))
+        iv = _inverse(st["kind"], st["a"], _step_center(st))
+        inv = None if iv is None else _transform(iv[0], iv[1], st["center"], "float", st.get("mdtype", "float64"))
+        made = [gen.make_tree(t) for t in case["trees"]]
+        f64 = lambda a: np.asarray(a).astype(np.float64).tolist()
+        ins, outs, given, now = [], [], [], []
+        for i in range(case["calls"]):
+            x = (made[0] if i == 0 or mode == "same-tree" else outs[-1] if mode == "chain" else made[i])
+            given.append(f64(x.xyz()))
+            y = tr(x)
+            ins.append(x); outs.append(y)
+            now.append(f64(y.xyz()))
+        # … everything below is read after the LAST call
+        res = {"given": given, "now": now, "late": [f64(y.xyz()) for y in outs], "inputs_late": [f64(x.xyz()) for x in ins],
+               "pid": [y.pid().tolist() for y in outs], "type": [y.type().tolist() for y in outs], "r": [f64(y.r()) for y in outs]}
+        if inv is not None:
+            res["back0"] = f64(inv(outs[0]).xyz())
+        return res
+
+    def _tree_of(self, case, i):
+        return case["trees"][0 if case["mode"] in ("same-tree", "chain") else i]
+
+    def oracle(self, case, res):
+        try:
+            return self._oracle(case, res)
+        except Exception as e:  # noqa: BLE001
+            return [("reuse-malformed-output", f"the results cannot be compared with the stated map ({type(e).__name__}: {str(e)[:200]})")]
+
+    def _oracle(self, case, res):
+        st, mode, k = case["step"], case["mode"], case["calls"]
+        c = _step_center(st)
+        desc = f"{st['kind']}{st['a']} center={st['center']}" + (f" [{st['mdtype']} matrix]" if "mdtype" in st else "") + \
+               f", one object called {k} times ({mode}, {[t['n'] for t in case['trees']]} nodes)"
+        if not isinstance(res, dict):
+            return [("reuse-malformed-output", f"result is {type(res).__name__}")]
+        if "exc" in res:
+            return [("reuse-raises", f"{desc} raised {res['exc']}: {res.get('msg')}")]
+        if any(len(res[f]) != k for f in ("given", "now", "late", "inputs_late", "pid", "type", "r")):
+            return [("reuse-malformed-output", f"{desc}: not {k} results")]
+        out = []
+        for i in range(k):
+            t = self._tree_of(case, i)
+            rr = _root_row(t)
+            G = np.array(res["given"][i], dtype=np.float64)
+            if i == 0 or mode != "chain":        # the tree as constructed (a chain continues with what the call before returned)
+                P = np.array(t["xyz"], dtype=np.float32).astype(np.float64)
+                if G.shape != P.shape or not np.array_equal(G, P):
+                    out.append(("input-modified", f"{desc}: the tree given to call {i + 1} no longer has the coordinates it was built with"))
+                    break
+            exp = _expected(st["kind"], st["a"], c, G[rr], G)
+            tol = 2e-3 + 2e-5 * max(np.abs(exp).max(), np.abs(G).max())
+            bad = lambda a: a.shape != exp.shape or not np.all(np.isfinite(a)) or not np.allclose(a, exp, atol=tol, rtol=0)
+            now, late = np.array(res["now"][i], dtype=np.float64), np.array(res["late"][i], dtype=np.float64)
+            if bad(now):
+                out.append((f"{st['kind']}-wrong-map/{c}", f"{desc}: call {i + 1} on {G.tolist()} returned {now.tolist()}, stated map gives {exp.tolist()}"))
+                break
+            if bad(late):
+                out.append((f"{st['kind']}-result-changed-by-later-call/{c}",
+                            f"{desc}: the tree returned by call {i + 1} had the stated coordinates {now.tolist()}; read again after call {k} "
+                            f"it has {late.tolist()} (stated map of its input {G.tolist()} is {exp.tolist()})"))
+                break
+            L = np.array(res["inputs_late"][i], dtype=np.float64)
+            if L.shape != G.shape or not np.array_equal(L, G):
+                out.append(("input-modified", f"{desc}: the tree given to call {i + 1} was {G.tolist()}, after call {k} it is {L.tolist()}"))
+                break
+            r0 = np.array(t["r"], dtype=np.float32).astype(np.float64)
+            if res["pid"][i] != t["pids"] or res["type"][i] != t["types"]:
+                out.append(("topology-or-type-changed", f"{desc}: parent relation / types of result {i + 1} changed"))
+            if np.shape(res["r"][i]) != r0.shape or not np.allclose(res["r"][i], r0):
+                out.append(("radii-changed", f"{desc}: radii of result {i + 1} changed"))
+        if not out and "back0" in res:
+            G = np.array(res["given"][0], dtype=np.float64)
+            big = max(np.abs(G).max(), np.abs(np.array(res["now"][0])).max())
+            B = np.array(res["back0"], dtype=np.float64)
+            if B.shape != G.shape or not np.allclose(B, G, atol=5e-3 + 8e-5 * big, rtol=0):
+                out.append((f"{st['kind']}-inverse", f"{desc}: the inverse applied (after call {k}) to the result of call 1 does not restore {G.tolist()}: {B.tolist()}"))
+        return out
+
+    def nontrivial(self, case, res):
+        return case["calls"] >= 2 and case["trees"][0]["n"] >= 2
+
+
 class Matrices(Suite):
     """cross-check of the translator: generated matrices at Float == the Python matrix functions"""
     name = "c12.matrices"
@@ -921,7 +1062,7 @@ class Camera(Suite):
         return []
 
 
-SUITES = [Affine(), Pipeline(), Matrices(), Camera()]
+SUITES = [Affine(), Pipeline(), Reuse(), Matrices(), Camera()]
 
 TECHNIQUE = "Lean 4 theorems (ring / linear_combination over an ordered field) about matrices and the centre conjugation REGENERATED from the Python source by an AST translator on every run + Float cross-check of the generated terms + direct oracle of the stated map"
 LEVEL_TEXT = ("Kernel-checked for all vectors, scale factors, unit axes and angles (through c²+s²=1) and all node / root positions: the generated "
